@@ -33,6 +33,7 @@ STR_FLOAT_MODULES = [
 STUBS_DOC = [
     "float/int in abstract_shexing_strategy, direct_shexing_strategy, direct_and_inverse_shexing_strategy, ratio_freq_serializer -> symx.sym_float/sym_int (identity on plain numbers)",
     "float in utils.triple_yielders and big_ttl_triples_yielder -> real float() on concrete text, HarnessError on symbolic characters",
+    "rdflib.plugins.sparql.prepareQuery as seen by node_selector_parser -> no-op (syntax check of SPARQL selectors is outside symbolic reach)",
     "compiled regexes _OTHER_BLANKS,_SEVERAL_BLANKS,_QUOTES_FOR_LITERALS,_INIT_INLINE_COMMENT,_SEP_CHARS,_WHITES_REGEX,_INIT_URI_PATTERN -> RegexShim parsed from the current pattern text (delegates to the original on plain str)",
 ]
 
@@ -78,7 +79,18 @@ def install():
         if not isinstance(obj, RegexShim):
             _SAVED.append((mod, name, obj))
             setattr(mod, name, RegexShim(obj))
+    nsp = importlib.import_module("shexer.io.shape_map.node_selector.node_selector_parser")
+    _SAVED.append((nsp, "sparql", nsp.sparql))
+    nsp.sparql = _NoSparql()
     _DONE[0] = True
+
+
+class _NoSparql:
+    """rdflib's SPARQL grammar (pyparsing) cannot be executed symbolically: prepareQuery is a no-op (C10 states it)."""
+
+    @staticmethod
+    def prepareQuery(*a, **k):
+        return None
 
 
 def uninstall():
